@@ -1,88 +1,1114 @@
+//! C18 driver: the HTTP listener of metrics-exporter-prometheus over real loopback sockets.
+//!
+//! A *program* is an allowlist configuration (the strings handed to `add_allowed_address`, in order) and a list of
+//! client operations on numbered connection slots: connect from a given 127.0.0.0/8 source address (the socket is
+//! bound to it before `connect`, so the server sees distinct peers), well-formed GETs, half requests, garbage,
+//! half-close, reset, orderly close, counter bumps, reads, probes (fresh connection + well-formed GET + read) and
+//! concurrent phases (scraper threads + a bumper thread while the main thread keeps injecting faults).
+//! Every step and everything read from the sockets is logged as one ndjson event; TraceScrapeEndpoint.tla decides.
+//!
+//! modes
+//!   replay --in programs.ndjson --out trace.ndjson [--paths rotate|all] [--embed rotate|all]
+//!       programs from TLC: abstract (W-bit addresses, embedded into 127.0.0.0/8 here) or concrete (strings, as
+//!       written into the `prog` field of every `reset` event: that is how a failing run is re-executed).
+//!       A program without `ops` is a decision vector: every peer of the W-bit space asks on a fresh connection.
+//!   record --runs N --out trace.ndjson [--plain-rate PERMILLE]
+//!       seeded random programs: random allowlists / peers at block edges, fault sequences + probes, concurrent phases.
+use metrics::Recorder;
+use rand::Rng;
+use serde_json::{json, Value};
+use std::collections::{HashMap, HashSet, VecDeque};
 use std::io::{Read, Write};
-use std::net::{Ipv4Addr, SocketAddr};
-use std::time::Duration;
+use std::net::{Ipv4Addr, SocketAddr, TcpStream};
+use std::sync::atomic::{AtomicBool, AtomicU64, Ordering};
+use std::sync::Arc;
+use std::time::{Duration, Instant};
+
+const CTR: &str = "c18_scrapes_observed_total";
+const CLEAN_DEADLINE: Duration = Duration::from_secs(12);
+const FAULTY_DEADLINE: Duration = Duration::from_secs(3);
+
+// ------------------------------------------------------------------------------------------------ entries
+
+/// The harness's own reading of the documented entry syntax ("IP address or subnet"): `addr` or `addr/len`.
+fn classify(s: &str) -> (String, Vec<u8>, u32) {
+    fn bits_of(ip: &std::net::IpAddr) -> Vec<u8> {
+        let bytes: Vec<u8> = match ip {
+            std::net::IpAddr::V4(a) => a.octets().to_vec(),
+            std::net::IpAddr::V6(a) => a.octets().to_vec(),
+        };
+        bytes.iter().flat_map(|b| (0..8).rev().map(move |i| (b >> i) & 1)).collect()
+    }
+    if let Some((a, n)) = s.split_once('/') {
+        if let (Ok(ip), Ok(n)) = (a.parse::<std::net::IpAddr>(), n.parse::<u32>()) {
+            let b = bits_of(&ip);
+            if n as usize <= b.len() && !s[a.len() + 1..].starts_with('+') {
+                return ("cidr".into(), b, n);
+            }
+        }
+        return ("bad".into(), vec![], 0);
+    }
+    match s.parse::<std::net::IpAddr>() {
+        Ok(ip) => {
+            let b = bits_of(&ip);
+            let n = b.len() as u32;
+            ("plain".into(), b, n)
+        }
+        Err(_) => ("bad".into(), vec![], 0),
+    }
+}
+
+fn entry_json(s: &str) -> Value {
+    let (k, a, n) = classify(s);
+    json!({"k": k, "a": a, "n": n, "s": s})
+}
+
+fn bits32(ip: Ipv4Addr) -> Vec<u8> {
+    let v = u32::from(ip);
+    (0..32).rev().map(|i| ((v >> i) & 1) as u8).collect()
+}
+
+/// Embedding of the W-bit model space into 127.0.0.0/8: the W bits sit at bit positions [shift, shift+W) of the
+/// address, the lower bits are a fixed filler, so abstract prefix length L is concrete 32-shift-W+L.
+#[derive(Clone, Copy)]
+struct Embedding {
+    shift: u32,
+    filler: u32,
+    host32: bool, // write the single-host block (L = W) as /32
+}
+const EMBEDDINGS: [Embedding; 5] = [
+    Embedding { shift: 0, filler: 0, host32: false },        // 127.0.0.{0..15}, /28../32
+    Embedding { shift: 6, filler: 5, host32: false },        // straddles the last two octets, /22../26
+    Embedding { shift: 20, filler: 0x0102, host32: true },   // second octet, /8../11 and /32
+    Embedding { shift: 14, filler: 9, host32: false },       // straddles octets 2/3, /14../18
+    Embedding { shift: 1, filler: 1, host32: true },         // odd addresses, /27../30 and /32
+];
+impl Embedding {
+    fn addr(&self, bits: &[u8]) -> Ipv4Addr {
+        let a = bits.iter().fold(0u32, |acc, b| acc * 2 + *b as u32);
+        Ipv4Addr::from(0x7f00_0000u32 | (a << self.shift) | self.filler)
+    }
+    fn entry(&self, e: &Value) -> String {
+        let k = e["k"].as_str().unwrap_or("bad");
+        let bits: Vec<u8> = e["a"].as_array().map(|v| v.iter().map(|x| x.as_u64().unwrap() as u8).collect()).unwrap_or_default();
+        let w = bits.len() as u32;
+        match k {
+            "plain" => self.addr(&bits).to_string(),
+            "cidr" => {
+                let l = e["n"].as_u64().unwrap() as u32;
+                let p = if l == w && self.host32 { 32 } else { 32 - self.shift - w + l };
+                format!("{}/{}", self.addr(&bits), p)
+            }
+            _ => "not-an-address".to_string(),
+        }
+    }
+}
+
+// ------------------------------------------------------------------------------------------------ programs
+
+#[derive(Clone, Debug)]
+enum Op {
+    Connect { c: i64, peer: Ipv4Addr },
+    Get { c: i64, path: String },
+    Partial { c: i64, path: String },
+    Rest { c: i64 },
+    Garbage { c: i64, kind: u64 },
+    HalfClose { c: i64 },
+    Rst { c: i64, how: String },
+    Close { c: i64 },
+    Bump { n: u64 },
+    Read { c: i64 },
+    Probe { peer: Ipv4Addr, path: String },
+    Par { scrapers: usize, each: usize, peers: Vec<Ipv4Addr>, faults: Vec<Op> },
+}
+
+fn op_json(o: &Op) -> Value {
+    match o {
+        Op::Connect { c, peer } => json!({"op": "connect", "c": c, "peer": peer.to_string()}),
+        Op::Get { c, path } => json!({"op": "get", "c": c, "path": path}),
+        Op::Partial { c, path } => json!({"op": "partial", "c": c, "path": path}),
+        Op::Rest { c } => json!({"op": "rest", "c": c}),
+        Op::Garbage { c, kind } => json!({"op": "garbage", "c": c, "kind": kind}),
+        Op::HalfClose { c } => json!({"op": "halfclose", "c": c}),
+        Op::Rst { c, how } => json!({"op": "rst", "c": c, "how": how}),
+        Op::Close { c } => json!({"op": "close", "c": c}),
+        Op::Bump { n } => json!({"op": "bump", "n": n}),
+        Op::Read { c } => json!({"op": "read", "c": c}),
+        Op::Probe { peer, path } => json!({"op": "probe", "peer": peer.to_string(), "path": path}),
+        Op::Par { scrapers, each, peers, faults } => json!({"op": "par", "scrapers": scrapers, "each": each,
+            "peers": peers.iter().map(|p| p.to_string()).collect::<Vec<_>>(), "faults": faults.iter().map(op_json).collect::<Vec<_>>()}),
+    }
+}
+
+fn op_from(v: &Value, emb: Option<&Embedding>) -> Option<Op> {
+    let c = v["c"].as_i64().unwrap_or(0);
+    let path = v["path"].as_str().unwrap_or("metrics").to_string();
+    let peer = |x: &Value| -> Option<Ipv4Addr> {
+        if let Some(s) = x.as_str() {
+            s.parse().ok()
+        } else {
+            let bits: Vec<u8> = x.as_array()?.iter().map(|b| b.as_u64().unwrap() as u8).collect();
+            Some(emb?.addr(&bits))
+        }
+    };
+    Some(match v["op"].as_str()? {
+        "connect" => Op::Connect { c, peer: peer(&v["peer"])? },
+        "get" => Op::Get { c, path },
+        "partial" => Op::Partial { c, path },
+        "rest" => Op::Rest { c },
+        "garbage" => Op::Garbage { c, kind: v["kind"].as_u64().unwrap_or(c as u64) },
+        "halfclose" => Op::HalfClose { c },
+        "rst" => Op::Rst { c, how: v["how"].as_str().unwrap_or("linger0").to_string() },
+        "close" => Op::Close { c },
+        "bump" => Op::Bump { n: v["n"].as_u64().unwrap_or(1) },
+        "read" => Op::Read { c },
+        "probe" => Op::Probe { peer: peer(&v["peer"])?, path },
+        "par" => Op::Par {
+            scrapers: v["scrapers"].as_u64()? as usize,
+            each: v["each"].as_u64()? as usize,
+            peers: v["peers"].as_array()?.iter().filter_map(|p| peer(p)).collect(),
+            faults: v["faults"].as_array()?.iter().filter_map(|o| op_from(o, emb)).collect(),
+        },
+        _ => return None,
+    })
+}
+
+struct Program {
+    mode: String,
+    entries: Vec<String>,
+    ops: Vec<Op>,
+    flavor: u64, // 0: exporter future spawned on a shared multi-thread runtime; 1: own current-thread runtime + thread (as install() does)
+}
+
+impl Program {
+    fn to_json(&self) -> Value {
+        json!({"concrete": true, "mode": self.mode, "flavor": self.flavor, "entries": self.entries,
+               "ops": self.ops.iter().map(op_json).collect::<Vec<_>>()})
+    }
+}
+
+fn path_raw(class: &str) -> &'static str {
+    match class {
+        "health" => "/health",
+        "healthq" => "/health?probe=1",
+        "root" => "/",
+        "healthslash" => "/health/",
+        "other" => "/healthz",
+        "deep" => "/health/metrics",
+        _ => "/metrics",
+    }
+}
+const RENDER_PATHS: [&str; 5] = ["metrics", "root", "healthslash", "other", "deep"];
+const HEALTH_PATHS: [&str; 2] = ["health", "healthq"];
+
+// ------------------------------------------------------------------------------------------------ exporter
+
+struct Exporter {
+    port: u16,
+    _recorder: metrics_exporter_prometheus::PrometheusRecorder,
+    counter: metrics::Counter,
+    pre: Arc<AtomicU64>,  // increments started
+    post: Arc<AtomicU64>, // increments completed
+    stop: Arc<AtomicBool>,
+    jh: Option<tokio::task::JoinHandle<()>>,
+    th: Option<std::thread::JoinHandle<()>>,
+    finished: Arc<AtomicBool>,
+}
+
+impl Exporter {
+    /// Ok(exporter) or Err((1-based index of the rejected entry, message)).
+    fn start(srt: &tokio::runtime::Runtime, entries: &[String], flavor: u64) -> Result<Exporter, (usize, String)> {
+        for _attempt in 0..50 {
+            let l = std::net::TcpListener::bind("127.0.0.1:0").expect("bind an ephemeral port");
+            let port = l.local_addr().unwrap().port();
+            drop(l);
+            let mut b = metrics_exporter_prometheus::PrometheusBuilder::new()
+                .with_http_listener(SocketAddr::from(([127, 0, 0, 1], port)))
+                .upkeep_timeout(Duration::from_secs(3600));
+            for (i, e) in entries.iter().enumerate() {
+                b = match b.add_allowed_address(e) {
+                    Ok(b) => b,
+                    Err(err) => return Err((i + 1, err.to_string())),
+                };
+            }
+            let stop = Arc::new(AtomicBool::new(false));
+            let finished = Arc::new(AtomicBool::new(false));
+            let (recorder, jh, th);
+            if flavor == 0 {
+                let built = {
+                    let _g = srt.enter();
+                    b.build()
+                };
+                let (r, fut) = match built {
+                    Ok(x) => x,
+                    Err(metrics_exporter_prometheus::BuildError::FailedToCreateHTTPListener(_)) => continue,
+                    Err(e) => panic!("tool error: build failed: {e}"),
+                };
+                let fin = finished.clone();
+                jh = Some(srt.spawn(async move {
+                    let _ = fut.await;
+                    fin.store(true, Ordering::SeqCst);
+                }));
+                th = None;
+                recorder = r;
+            } else {
+                let rt = tokio::runtime::Builder::new_current_thread().enable_all().build().expect("runtime");
+                let built = {
+                    let _g = rt.enter();
+                    b.build()
+                };
+                let (r, fut) = match built {
+                    Ok(x) => x,
+                    Err(metrics_exporter_prometheus::BuildError::FailedToCreateHTTPListener(_)) => continue,
+                    Err(e) => panic!("tool error: build failed: {e}"),
+                };
+                let fin = finished.clone();
+                let st = stop.clone();
+                th = Some(std::thread::spawn(move || {
+                    rt.block_on(async move {
+                        let h = tokio::spawn(async move {
+                            let _ = fut.await;
+                            fin.store(true, Ordering::SeqCst);
+                        });
+                        while !st.load(Ordering::SeqCst) {
+                            tokio::time::sleep(Duration::from_millis(3)).await;
+                        }
+                        h.abort();
+                    });
+                }));
+                jh = None;
+                recorder = r;
+            }
+            let md = metrics::Metadata::new("c18", metrics::Level::INFO, None);
+            let counter = recorder.register_counter(&metrics::Key::from_name(CTR), &md);
+            counter.increment(0);
+            // a little company so that the body is a realistic exposition (labels with characters to escape, a summary)
+            let g = recorder.register_gauge(
+                &metrics::Key::from_parts("c18_gauge", vec![metrics::Label::new("why", "a \"quoted\" \\ value\nnext")]),
+                &md,
+            );
+            g.set(-1.5);
+            let h = recorder.register_histogram(&metrics::Key::from_name("c18_latency"), &md);
+            for v in [0.25, 1.0, 3.5] {
+                h.record(v);
+            }
+            recorder.describe_counter(CTR.into(), None, "scrapes observed by the harness".into());
+            return Ok(Exporter {
+                port,
+                _recorder: recorder,
+                counter,
+                pre: Arc::new(AtomicU64::new(0)),
+                post: Arc::new(AtomicU64::new(0)),
+                stop,
+                jh,
+                th,
+                finished,
+            });
+        }
+        panic!("tool error: no free port");
+    }
+    fn bump(&self, n: u64) {
+        self.pre.fetch_add(n, Ordering::SeqCst);
+        self.counter.increment(n);
+        self.post.fetch_add(n, Ordering::SeqCst);
+    }
+    fn shutdown(mut self) {
+        self.stop.store(true, Ordering::SeqCst);
+        if let Some(j) = self.jh.take() {
+            j.abort();
+        }
+        if let Some(t) = self.th.take() {
+            let _ = t.join();
+        }
+    }
+}
+
+// ------------------------------------------------------------------------------------------------ sockets
+
+enum ConnectErr {
+    Local(String),  // the source address cannot be used on this machine: not an observation of the exporter
+    Refused(String),
+    Timeout,
+}
+
+fn connect(crt: &tokio::runtime::Runtime, src: Ipv4Addr, port: u16) -> Result<TcpStream, ConnectErr> {
+    crt.block_on(async {
+        let s = tokio::net::TcpSocket::new_v4().map_err(|e| ConnectErr::Local(e.to_string()))?;
+        s.bind(SocketAddr::from((src, 0))).map_err(|e| ConnectErr::Local(format!("bind {src}: {e}")))?;
+        let fut = s.connect(SocketAddr::from(([127, 0, 0, 1], port)));
+        match tokio::time::timeout(Duration::from_secs(10), fut).await {
+            Err(_) => Err(ConnectErr::Timeout),
+            Ok(Err(e)) => match e.kind() {
+                std::io::ErrorKind::AddrNotAvailable | std::io::ErrorKind::InvalidInput | std::io::ErrorKind::AddrInUse => {
+                    Err(ConnectErr::Local(e.to_string()))
+                }
+                _ => Err(ConnectErr::Refused(e.to_string())),
+            },
+            Ok(Ok(st)) => {
+                let st = st.into_std().map_err(|e| ConnectErr::Local(e.to_string()))?;
+                st.set_nonblocking(false).map_err(|e| ConnectErr::Local(e.to_string()))?;
+                let _ = st.set_nodelay(true);
+                Ok(st)
+            }
+        }
+    })
+}
+
+/// RST: SO_LINGER 0, then close.
+fn reset_linger0(crt: &tokio::runtime::Runtime, s: TcpStream) {
+    let _g = crt.enter();
+    let _ = s.set_nonblocking(true);
+    if let Ok(t) = tokio::net::TcpStream::from_std(s) {
+        #[allow(deprecated)]
+        let _ = t.set_linger(Some(Duration::from_secs(0)));
+        drop(t);
+    }
+}
+
+enum Outcome {
+    Resp { st: u64, body: Vec<u8> },
+    Closed(&'static str),
+    Timeout,
+}
+
+fn find(h: &[u8], n: &[u8]) -> Option<usize> {
+    h.windows(n.len()).position(|w| w == n)
+}
+
+fn read_response(s: &mut TcpStream, buf: &mut Vec<u8>, deadline: Duration) -> Outcome {
+    let t0 = Instant::now();
+    loop {
+        if let Some(p) = find(buf, b"\r\n\r\n") {
+            let head = String::from_utf8_lossy(&buf[..p]).to_string();
+            let mut lines = head.split("\r\n");
+            let status = lines.next().unwrap_or("");
+            let st = status.split(' ').nth(1).and_then(|x| x.parse::<u64>().ok()).unwrap_or(0);
+            let mut clen: Option<usize> = None;
+            for l in lines {
+                if let Some((k, v)) = l.split_once(':') {
+                    if k.trim().eq_ignore_ascii_case("content-length") {
+                        clen = v.trim().parse().ok();
+                    }
+                }
+            }
+            if let Some(n) = clen {
+                if buf.len() >= p + 4 + n {
+                    let body = buf[p + 4..p + 4 + n].to_vec();
+                    buf.drain(..p + 4 + n);
+                    return Outcome::Resp { st, body };
+                }
+            } else if !status.starts_with("HTTP/") {
+                return Outcome::Resp { st: 0, body: buf.split_off(0) };
+            }
+            // no content-length: the body ends with the connection (handled at EOF below)
+        }
+        let left = deadline.checked_sub(t0.elapsed()).unwrap_or(Duration::from_millis(0));
+        if left.is_zero() {
+            return Outcome::Timeout;
+        }
+        let _ = s.set_read_timeout(Some(left.max(Duration::from_millis(1))));
+        let mut tmp = [0u8; 16384];
+        match s.read(&mut tmp) {
+            Ok(0) => {
+                if let Some(p) = find(buf, b"\r\n\r\n") {
+                    // response delimited by the close
+                    let head = String::from_utf8_lossy(&buf[..p]).to_string();
+                    let st = head.split(' ').nth(1).and_then(|x| x.parse::<u64>().ok()).unwrap_or(0);
+                    if !head.to_ascii_lowercase().contains("content-length") {
+                        let body = buf[p + 4..].to_vec();
+                        buf.clear();
+                        return Outcome::Resp { st, body };
+                    }
+                }
+                return Outcome::Closed("eof");
+            }
+            Ok(n) => buf.extend_from_slice(&tmp[..n]),
+            Err(e) if e.kind() == std::io::ErrorKind::WouldBlock || e.kind() == std::io::ErrorKind::TimedOut => return Outcome::Timeout,
+            Err(e) if e.kind() == std::io::ErrorKind::Interrupted => {}
+            Err(_) => return Outcome::Closed("reset"),
+        }
+    }
+}
+
+/// (body class, counter value shown or -1)
+fn classify_body(body: &[u8]) -> (&'static str, i64) {
+    if body.is_empty() {
+        return ("empty", -1);
+    }
+    if body == b"OK" {
+        return ("ok", -1);
+    }
+    let text = match std::str::from_utf8(body) {
+        Ok(t) => t,
+        Err(_) => return ("junk", -1),
+    };
+    match vh::promparse::parse_exposition(text) {
+        Ok(exp) => {
+            let v = exp.family(CTR).filter(|f| f.mtype == "counter").and_then(|f| f.samples.first()).and_then(|s| s.value.parse::<i64>().ok());
+            match v {
+                Some(v) => ("expo", v),
+                None => ("expo_without_counter", -1),
+            }
+        }
+        Err(_) => {
+            // still report a counter line if one is there: "never any metric data" must see it
+            if text.contains(CTR) {
+                ("junk_with_metrics", -1)
+            } else {
+                ("junk", -1)
+            }
+        }
+    }
+}
+
+const GARBAGE: [&[u8]; 6] = [
+    b"\x16\x03\x01\x02\x00\x01\x00\x01\xfc\x03\x03\r\n\r\n",
+    b"NOT HTTP AT ALL\r\n\r\n",
+    b"GET\r\n\r\n",
+    b"GET / HTTP/9.9\r\n\r\n",
+    b"GET /a b c HTTP/1.1\r\n\r\n",
+    b"\x00\x00\xff\xfe\x01\x02\x03\r\n\r\n",
+];
+
+// ------------------------------------------------------------------------------------------------ execution
+
+struct Conn {
+    s: TcpStream,
+    buf: Vec<u8>,
+    lo: VecDeque<u64>, // completed increments when each outstanding GET was sent
+    partial_lo: u64,
+    clean: bool,       // no client-side fault on this connection so far (deadline selection only)
+}
+
+#[derive(Default)]
+struct Stats {
+    runs: u64,
+    events: u64,
+    resp: u64,
+    n200: u64,
+    n403: u64,
+    n400: u64,
+    closed: u64,
+    timeouts: u64,
+    refused: u64,
+    build_err: u64,
+    skipped_peers: u64,
+    panics: u64,
+    distinct: HashSet<u64>,
+    nontrivial: HashSet<u64>,
+}
+
+fn h64<T: std::hash::Hash>(t: &T) -> u64 {
+    use std::hash::Hasher;
+    let mut h = std::collections::hash_map::DefaultHasher::new();
+    t.hash(&mut h);
+    h.finish()
+}
+
+struct Exec<'a> {
+    crt: &'a tokio::runtime::Runtime,
+    ex: &'a Exporter,
+    conns: HashMap<i64, Conn>,
+    ev: Vec<Value>,
+    par: bool,     // a bumper thread is running: counter bounds come from the shadows
+    spec_ctr: u64, // the trace specification's `ctr` after the events logged so far
+    aborted: bool, // the listener did not answer a healthy client: stop hammering it (bounded run time)
+    cfg_hash: u64,
+    peers: HashMap<i64, Ipv4Addr>,
+    paths: HashMap<i64, VecDeque<String>>,
+}
+
+impl<'a> Exec<'a> {
+    fn log(&mut self, v: Value) {
+        self.ev.push(v);
+    }
+    fn connect(&mut self, c: i64, peer: Ipv4Addr, st: &mut Stats) -> bool {
+        self.conns.remove(&c);
+        match connect(self.crt, peer, self.ex.port) {
+            Ok(s) => {
+                self.log(json!({"ev": "connect", "c": c, "peer": bits32(peer), "ps": peer.to_string()}));
+                self.conns.insert(c, Conn { s, buf: vec![], lo: VecDeque::new(), partial_lo: 0, clean: true });
+                self.peers.insert(c, peer);
+                self.paths.insert(c, VecDeque::new());
+                true
+            }
+            Err(ConnectErr::Local(_)) => {
+                st.skipped_peers += 1;
+                false
+            }
+            Err(ConnectErr::Refused(e)) => {
+                st.refused += 1;
+                self.log(json!({"ev": "refused", "c": c, "ps": peer.to_string(), "err": e}));
+                self.aborted = true;
+                false
+            }
+            Err(ConnectErr::Timeout) => {
+                st.refused += 1;
+                self.log(json!({"ev": "connect_timeout", "c": c, "ps": peer.to_string()}));
+                self.aborted = true;
+                false
+            }
+        }
+    }
+    fn send_get(&mut self, c: i64, path: &str) {
+        let lo = self.ex.post.load(Ordering::SeqCst);
+        if let Some(cn) = self.conns.get_mut(&c) {
+            let req = format!("GET {} HTTP/1.1\r\nHost: 127.0.0.1\r\nUser-Agent: c18\r\n\r\n", path_raw(path));
+            let werr = cn.s.write_all(req.as_bytes()).is_err();
+            cn.lo.push_back(lo);
+            self.paths.entry(c).or_default().push_back(path.to_string());
+            self.log(json!({"ev": "get", "c": c, "path": path, "raw": path_raw(path), "werr": werr}));
+        }
+    }
+    fn read(&mut self, c: i64, st: &mut Stats) {
+        let par = self.par;
+        let (out, lo, clean) = match self.conns.get_mut(&c) {
+            Some(cn) => {
+                let d = if cn.clean { CLEAN_DEADLINE } else { FAULTY_DEADLINE };
+                let clean = cn.clean;
+                let out = read_response(&mut cn.s, &mut cn.buf, d);
+                (out, cn.lo.front().copied().unwrap_or(0), clean)
+            }
+            None => return,
+        };
+        let hi = self.ex.pre.load(Ordering::SeqCst);
+        match out {
+            Outcome::Resp { st: code, body } => {
+                let (class, v) = classify_body(&body);
+                if let Some(cn) = self.conns.get_mut(&c) {
+                    if code != 400 {
+                        cn.lo.pop_front();
+                    }
+                }
+                let path = if code != 400 { self.paths.get_mut(&c).and_then(|q| q.pop_front()).unwrap_or_default() } else { String::new() };
+                st.resp += 1;
+                match code {
+                    200 => st.n200 += 1,
+                    403 => st.n403 += 1,
+                    400 => st.n400 += 1,
+                    _ => {}
+                }
+                let key = h64(&(self.cfg_hash, self.peers.get(&c).copied(), path.clone(), code, class));
+                st.distinct.insert(key);
+                if code == 403 || (code == 200 && self.cfg_hash != 0) {
+                    st.nontrivial.insert(key);
+                }
+                if par {
+                    self.spec_ctr = self.spec_ctr.max(hi);
+                }
+                self.log(json!({"ev": "resp", "c": c, "st": code, "body": class, "v": v, "blen": body.len(), "par": par, "lo": lo, "hi": hi}));
+            }
+            Outcome::Closed(how) => {
+                st.closed += 1;
+                self.log(json!({"ev": "closed", "c": c, "how": how}));
+                if clean {
+                    self.aborted = true;
+                }
+            }
+            Outcome::Timeout => {
+                st.timeouts += 1;
+                self.log(json!({"ev": "timeout", "c": c}));
+                if clean {
+                    self.aborted = true;
+                }
+            }
+        }
+    }
+    fn step(&mut self, op: &Op, st: &mut Stats) {
+        if self.aborted {
+            return;
+        }
+        match op {
+            Op::Connect { c, peer } => {
+                self.connect(*c, *peer, st);
+            }
+            Op::Get { c, path } => self.send_get(*c, path),
+            Op::Partial { c, path } => {
+                let lo = self.ex.post.load(Ordering::SeqCst);
+                if let Some(cn) = self.conns.get_mut(c) {
+                    let req = format!("GET {} HTTP/1.1\r\nHost: 127.0.0.1\r\nUser-Agent: c18\r\n\r\n", path_raw(path));
+                    let half = req.len() / 2;
+                    let _ = cn.s.write_all(&req.as_bytes()[..half]);
+                    cn.partial_lo = lo;
+                    self.paths.entry(*c).or_default().push_back(path.to_string());
+                    self.log(json!({"ev": "partial", "c": c, "path": path}));
+                }
+            }
+            Op::Rest { c } => {
+                let path = self.paths.get(c).and_then(|q| q.back().cloned()).unwrap_or_default();
+                if let Some(cn) = self.conns.get_mut(c) {
+                    let req = format!("GET {} HTTP/1.1\r\nHost: 127.0.0.1\r\nUser-Agent: c18\r\n\r\n", path_raw(&path));
+                    let half = req.len() / 2;
+                    let _ = cn.s.write_all(&req.as_bytes()[half..]);
+                    let lo = cn.partial_lo;
+                    cn.lo.push_back(lo);
+                    self.log(json!({"ev": "rest", "c": c}));
+                }
+            }
+            Op::Garbage { c, kind } => {
+                if let Some(cn) = self.conns.get_mut(c) {
+                    let _ = cn.s.write_all(GARBAGE[(*kind as usize) % GARBAGE.len()]);
+                    cn.clean = false;
+                    self.log(json!({"ev": "garbage", "c": c, "kind": kind % GARBAGE.len() as u64}));
+                }
+            }
+            Op::HalfClose { c } => {
+                if let Some(cn) = self.conns.get_mut(c) {
+                    let _ = cn.s.shutdown(std::net::Shutdown::Write);
+                    cn.clean = false;
+                    self.log(json!({"ev": "halfclose", "c": c}));
+                }
+            }
+            Op::Rst { c, how } => {
+                if let Some(mut cn) = self.conns.remove(c) {
+                    if how == "unread" {
+                        // close with unread data: wait (bounded) until something is there to leave unread
+                        if !cn.lo.is_empty() && cn.buf.is_empty() {
+                            let _ = cn.s.set_read_timeout(Some(Duration::from_millis(1500)));
+                            let mut one = [0u8; 1];
+                            let _ = cn.s.peek(&mut one);
+                        }
+                        drop(cn);
+                    } else {
+                        reset_linger0(self.crt, cn.s);
+                    }
+                    self.log(json!({"ev": "rst", "c": c, "how": how}));
+                }
+            }
+            Op::Close { c } => {
+                if let Some(cn) = self.conns.remove(c) {
+                    let _ = cn.s.shutdown(std::net::Shutdown::Both);
+                    drop(cn);
+                    self.log(json!({"ev": "close", "c": c}));
+                }
+            }
+            Op::Bump { n } => {
+                if !self.par {
+                    self.ex.bump(*n);
+                    self.spec_ctr += *n;
+                    self.log(json!({"ev": "bump", "n": n}));
+                }
+            }
+            Op::Read { c } => self.read(*c, st),
+            Op::Probe { peer, path } => {
+                // a later client: fresh connection, well-formed request, must be answered
+                let c = 20;
+                if self.connect(c, *peer, st) {
+                    self.send_get(c, path);
+                    self.read(c, st);
+                    self.step(&Op::Close { c }, st);
+                }
+            }
+            Op::Par { scrapers, each, peers, faults } => self.par_phase(*scrapers, *each, peers, faults, st),
+        }
+    }
+
+    fn par_phase(&mut self, scrapers: usize, each: usize, peers: &[Ipv4Addr], faults: &[Op], st: &mut Stats) {
+        if peers.is_empty() {
+            return;
+        }
+        let stopb = Arc::new(AtomicBool::new(false));
+        let ex = self.ex;
+        let crt = self.crt;
+        let cfg_hash = self.cfg_hash;
+        let mut results: Vec<(Vec<Value>, Stats)> = vec![];
+        self.par = true;
+        std::thread::scope(|sc| {
+            let sb = stopb.clone();
+            let bumper = sc.spawn(move || {
+                let mut i = 0u64;
+                while !sb.load(Ordering::SeqCst) {
+                    ex.bump(1 + i % 3);
+                    i += 1;
+                    if i % 8 == 0 {
+                        std::thread::sleep(Duration::from_micros(200));
+                    }
+                }
+            });
+            let mut hs = vec![];
+            for t in 0..scrapers {
+                let peers = peers.to_vec();
+                hs.push(sc.spawn(move || {
+                    let mut st = Stats::default();
+                    let mut e = Exec { crt, ex, conns: HashMap::new(), ev: vec![], par: true, spec_ctr: 0, aborted: false, cfg_hash,
+                                       peers: HashMap::new(), paths: HashMap::new() };
+                    let c = 21 + t as i64;
+                    for j in 0..each {
+                        if e.aborted {
+                            break;
+                        }
+                        let peer = peers[(t * 7 + j) % peers.len()];
+                        let path = if (t + j) % 5 == 4 { HEALTH_PATHS[j % 2] } else { RENDER_PATHS[(t + j) % RENDER_PATHS.len()] };
+                        if e.connect(c, peer, &mut st) {
+                            e.send_get(c, path);
+                            if j % 3 == 2 {
+                                // keep-alive: a second request on the same connection
+                                e.send_get(c, "metrics");
+                                e.read(c, &mut st);
+                            }
+                            e.read(c, &mut st);
+                            e.step(&Op::Close { c }, &mut st);
+                        }
+                    }
+                    (e.ev, st, e.aborted)
+                }));
+            }
+            // the main thread keeps misbehaving meanwhile
+            for f in faults {
+                self.step(f, st);
+            }
+            for h in hs {
+                match h.join() {
+                    Ok((ev, s, ab)) => {
+                        if ab {
+                            self.aborted = true;
+                        }
+                        results.push((ev, s));
+                    }
+                    Err(_) => st.panics += 1,
+                }
+            }
+            stopb.store(true, Ordering::SeqCst);
+            let _ = bumper.join();
+        });
+        self.par = false;
+        for (ev, s) in results {
+            for e in ev {
+                if e["ev"] == "resp" {
+                    self.spec_ctr = self.spec_ctr.max(e["hi"].as_u64().unwrap_or(0));
+                }
+                self.ev.push(e);
+            }
+            st.resp += s.resp;
+            st.n200 += s.n200;
+            st.n403 += s.n403;
+            st.n400 += s.n400;
+            st.closed += s.closed;
+            st.timeouts += s.timeouts;
+            st.refused += s.refused;
+            st.skipped_peers += s.skipped_peers;
+            st.distinct.extend(s.distinct);
+            st.nontrivial.extend(s.nontrivial);
+        }
+        // bring the specification's counter up to the real one (the bumper has stopped: pre = post = total)
+        let total = self.ex.pre.load(Ordering::SeqCst);
+        if total > self.spec_ctr {
+            self.log(json!({"ev": "bump", "n": total - self.spec_ctr}));
+            self.spec_ctr = total;
+        }
+    }
+}
+
+fn run_program(srt: &tokio::runtime::Runtime, crt: &tokio::runtime::Runtime, p: &Program, run: u64, w: &mut vh::trace::Writer, st: &mut Stats) {
+    st.runs += 1;
+    let entries_json: Vec<Value> = p.entries.iter().map(|s| entry_json(s)).collect();
+    let started = std::panic::catch_unwind(std::panic::AssertUnwindSafe(|| Exporter::start(srt, &p.entries, p.flavor)));
+    let mut reset = json!({"ev": "reset", "run": run, "mode": p.mode, "flavor": p.flavor, "entries": entries_json,
+                           "prog": p.to_json().to_string()});
+    let ex = match started {
+        Err(_) => {
+            st.panics += 1;
+            reset["ok"] = json!(false);
+            reset["bad"] = json!(-1);
+            w.put(&reset);
+            w.put(&json!({"ev": "panic", "at": "build"}));
+            return;
+        }
+        Ok(Err((bad, msg))) => {
+            st.build_err += 1;
+            reset["ok"] = json!(false);
+            reset["bad"] = json!(bad);
+            reset["err"] = json!(msg);
+            w.put(&reset);
+            return;
+        }
+        Ok(Ok(ex)) => ex,
+    };
+    reset["ok"] = json!(true);
+    reset["bad"] = json!(0);
+    w.put(&reset);
+    let cfg_hash = if p.entries.is_empty() { 0 } else { h64(&p.entries) | 1 };
+    let mut e = Exec { crt, ex: &ex, conns: HashMap::new(), ev: vec![], par: false, spec_ctr: 0, aborted: false, cfg_hash,
+                       peers: HashMap::new(), paths: HashMap::new() };
+    for op in &p.ops {
+        e.step(op, st);
+    }
+    if ex.finished.load(Ordering::SeqCst) {
+        e.ev.push(json!({"ev": "exporter_exited"}));
+    }
+    let ev = std::mem::take(&mut e.ev);
+    drop(e);
+    for v in &ev {
+        w.put(v);
+    }
+    st.events += ev.len() as u64 + 1;
+    ex.shutdown();
+}
+
+// ------------------------------------------------------------------------------------------------ program sources
+
+/// A decision vector: every peer of the W-bit space asks on a fresh connection (in rotated order, so that the first
+/// peer differs between configurations), one path per peer (rotating) or all paths.
+fn vector_ops(w: usize, emb: &Embedding, idx: usize, all_paths: bool) -> Vec<Op> {
+    let n = 1usize << w;
+    let classes = ["metrics", "health", "root", "healthq", "healthslash", "other"];
+    let mut ops = vec![];
+    for i in 0..n {
+        let a = (i * 7 + idx * 5) % n; // 7 is coprime to 2^w
+        let bits: Vec<u8> = (0..w).rev().map(|b| ((a >> b) & 1) as u8).collect();
+        let c = 1 + (i % 3) as i64;
+        ops.push(Op::Connect { c, peer: emb.addr(&bits) });
+        let paths: Vec<&str> = if all_paths { classes.to_vec() } else { vec![classes[(i + idx) % classes.len()]] };
+        for p in &paths {
+            ops.push(Op::Get { c, path: p.to_string() });
+        }
+        if i % 4 == 1 {
+            ops.push(Op::Bump { n: 1 + (i as u64 % 3) });
+        }
+        for _ in &paths {
+            ops.push(Op::Read { c });
+        }
+        ops.push(Op::Close { c });
+    }
+    ops
+}
+
+fn programs_from_line(v: &Value, idx: usize, all_paths: bool, all_emb: bool) -> Vec<Program> {
+    if v["concrete"].as_bool() == Some(true) {
+        let entries = v["entries"].as_array().map(|a| a.iter().map(|s| s.as_str().unwrap_or("").to_string()).collect()).unwrap_or_default();
+        let ops = v["ops"].as_array().map(|a| a.iter().filter_map(|o| op_from(o, None)).collect()).unwrap_or_default();
+        return vec![Program { mode: v["mode"].as_str().unwrap_or("replay").to_string(), entries, ops, flavor: v["flavor"].as_u64().unwrap_or(0) }];
+    }
+    let ents = v["entries"].as_array().cloned().unwrap_or_default();
+    let w = ents.iter().filter_map(|e| e["a"].as_array().map(|a| a.len())).find(|n| *n > 0).unwrap_or(4);
+    let embs: Vec<usize> = if all_emb { (0..EMBEDDINGS.len()).collect() } else { vec![idx % EMBEDDINGS.len()] };
+    let mut out = vec![];
+    for ei in embs {
+        let emb = &EMBEDDINGS[ei];
+        let entries: Vec<String> = ents.iter().map(|e| emb.entry(e)).collect();
+        let (mode, mut ops): (&str, Vec<Op>) = match v["ops"].as_array() {
+            Some(a) => ("tlc", a.iter().filter_map(|o| op_from(o, Some(emb))).collect()),
+            None => ("vec", vector_ops(w, emb, idx + ei, all_paths)),
+        };
+        if mode == "tlc" {
+            // read what is still outstanding on open connections? no: leave them as the behaviour left them, and let
+            // later clients ask: one peer inside and one outside the model's blocks, on fresh connections
+            for (i, a) in [6usize, 15, 0].iter().enumerate() {
+                let bits: Vec<u8> = (0..w).rev().map(|b| ((a >> b) & 1) as u8).collect();
+                ops.push(Op::Probe { peer: emb.addr(&bits), path: ["metrics", "health", "root"][i].to_string() });
+            }
+        }
+        out.push(Program { mode: mode.to_string(), entries, ops, flavor: ((idx + ei) % 4 == 3) as u64 });
+    }
+    out
+}
+
+fn rand_ip_near(rng: &mut rand::rngs::StdRng, focus: u32) -> u32 {
+    match rng.random_range(0..4) {
+        0 => focus,
+        1 => focus ^ (1 << rng.random_range(0..24)),
+        2 => (focus & 0xffff_ff00) | rng.random_range(0..256),
+        _ => 0x7f00_0000 | rng.random_range(0..(1u32 << 24)),
+    }
+}
+
+fn usable_peer(ip: u32) -> bool {
+    (ip >> 24) == 127 && ip != 0x7fff_ffff
+}
+
+/// Random allowlist + the peers worth asking from (block edges and their outside neighbours).
+fn random_config(rng: &mut rand::rngs::StdRng, plain_permille: u32) -> (Vec<String>, Vec<Ipv4Addr>) {
+    let focus = 0x7f00_0000u32 | rng.random_range(0..(1u32 << 24));
+    let n = [0usize, 1, 1, 2, 2, 3][rng.random_range(0..6)];
+    let mut entries = vec![];
+    let mut peers: Vec<u32> = vec![focus, 0x7f00_0001];
+    for _ in 0..n {
+        let r = rng.random_range(0..1000);
+        if r < plain_permille {
+            let ip = rand_ip_near(rng, focus);
+            entries.push(Ipv4Addr::from(ip).to_string());
+            peers.extend([ip, ip.wrapping_add(1), ip.wrapping_sub(1)]);
+        } else if r < plain_permille + 25 {
+            entries.push(["localhost", "", "127.0.0.1/33", "127.0.0.256/8", "abc/8", "127.0.0.1/x", "127.0.0/24"][rng.random_range(0..7)].to_string());
+        } else if r < plain_permille + 70 {
+            entries.push(["::1/128", "::/0", "10.0.0.0/8", "0.0.0.0/0", "128.0.0.0/1", "0.0.0.0/1", "126.0.0.0/7", "::ffff:127.0.0.1/128"][rng.random_range(0..8)].to_string());
+        } else {
+            let len = match rng.random_range(0..10) {
+                0 => 32,
+                1 => 31,
+                2 => 30,
+                3 => 24,
+                4 => 16,
+                5 => 8,
+                6 => 9,
+                _ => rng.random_range(1..=32),
+            };
+            let ip = rand_ip_near(rng, focus);
+            let mask = if len == 0 { 0 } else { u32::MAX << (32 - len) };
+            let addr = if rng.random_range(0..2) == 0 { ip & mask } else { ip }; // proper network address, or host bits set
+            entries.push(format!("{}/{}", Ipv4Addr::from(addr), len));
+            let net = ip & mask;
+            let bc = net | !mask;
+            peers.extend([net, net.wrapping_sub(1), bc, bc.wrapping_add(1), net.wrapping_add(1), ip]);
+        }
+    }
+    for _ in 0..2 {
+        peers.push(rand_ip_near(rng, focus));
+    }
+    let mut seen = HashSet::new();
+    let peers: Vec<Ipv4Addr> = peers.into_iter().filter(|p| usable_peer(*p) && seen.insert(*p)).map(Ipv4Addr::from).collect();
+    (entries, peers)
+}
+
+/// Client-side bookkeeping for generating only operations the specification's client can do.
+#[derive(Clone, Default)]
+struct Slot {
+    open: bool,
+    eof: bool,
+    partial: bool,
+    garbage: bool,
+    pending: usize, // complete requests not yet read
+}
+
+fn random_faults(rng: &mut rand::rngs::StdRng, slots: &mut Vec<Slot>, peers: &[Ipv4Addr], nfaults: usize, ops: &mut Vec<Op>, bumps: bool) {
+    let paths = ["metrics", "health", "root", "healthq", "other", "healthslash"];
+    let mut faults = 0;
+    let mut guard = 0;
+    while faults < nfaults && guard < 200 {
+        guard += 1;
+        let c = rng.random_range(0..slots.len());
+        let ci = c as i64 + 1;
+        let s = slots[c].clone();
+        if !s.open {
+            ops.push(Op::Connect { c: ci, peer: peers[rng.random_range(0..peers.len())] });
+            slots[c] = Slot { open: true, ..Default::default() };
+            continue;
+        }
+        let can_send = !s.eof && !s.partial && !s.garbage && s.pending < 3;
+        match rng.random_range(0..12) {
+            0 | 1 if can_send => {
+                ops.push(Op::Get { c: ci, path: paths[rng.random_range(0..paths.len())].to_string() });
+                slots[c].pending += 1;
+            }
+            2 if can_send => {
+                ops.push(Op::Partial { c: ci, path: paths[rng.random_range(0..paths.len())].to_string() });
+                slots[c].partial = true;
+                faults += 1;
+            }
+            3 if s.partial && !s.eof => {
+                ops.push(Op::Rest { c: ci });
+                slots[c].partial = false;
+                slots[c].pending += 1;
+            }
+            4 | 5 if can_send => {
+                ops.push(Op::Garbage { c: ci, kind: rng.random_range(0..GARBAGE.len() as u64) });
+                slots[c].garbage = true;
+                faults += 1;
+            }
+            6 if !s.eof => {
+                ops.push(Op::HalfClose { c: ci });
+                slots[c].eof = true;
+                faults += 1;
+            }
+            7 | 8 => {
+                ops.push(Op::Rst { c: ci, how: if rng.random_range(0..2) == 0 { "linger0".into() } else { "unread".into() } });
+                slots[c] = Slot::default();
+                faults += 1;
+            }
+            9 if s.pending > 0 || s.garbage || s.eof => {
+                ops.push(Op::Read { c: ci });
+                if s.pending > 0 {
+                    slots[c].pending -= 1;
+                }
+            }
+            10 if !s.partial && s.pending == 0 => {
+                ops.push(Op::Close { c: ci });
+                slots[c] = Slot::default();
+            }
+            11 if bumps => ops.push(Op::Bump { n: rng.random_range(1..4) }),
+            _ => {}
+        }
+    }
+}
+
+fn random_program(rng: &mut rand::rngs::StdRng, idx: usize, plain_permille: u32) -> Program {
+    let (entries, peers) = random_config(rng, plain_permille);
+    let mut ops = vec![];
+    let mut slots = vec![Slot::default(); rng.random_range(3..=6)];
+    let kind = idx % 3;
+    let rounds = if kind == 2 { 2 } else { rng.random_range(3..=6) };
+    for r in 0..rounds {
+        let nf = rng.random_range(1..=5);
+        if kind == 2 && r == 1 {
+            // concurrent scrapers while faults go on
+            let mut faults = vec![];
+            random_faults(rng, &mut slots, &peers, rng.random_range(3..=8), &mut faults, false);
+            ops.push(Op::Par { scrapers: rng.random_range(4..=8), each: rng.random_range(3..=6), peers: peers.clone(), faults });
+        } else {
+            random_faults(rng, &mut slots, &peers, nf, &mut ops, true);
+        }
+        // later clients
+        let np = rng.random_range(1..=3);
+        for _ in 0..np {
+            let path = if rng.random_range(0..4) == 0 { HEALTH_PATHS[rng.random_range(0..2)] } else { RENDER_PATHS[rng.random_range(0..RENDER_PATHS.len())] };
+            ops.push(Op::Probe { peer: peers[rng.random_range(0..peers.len())], path: path.to_string() });
+        }
+    }
+    Program { mode: ["seq", "seq", "par"][kind].to_string(), entries, ops, flavor: (idx % 5 == 4) as u64 }
+}
+
+// ------------------------------------------------------------------------------------------------ main
 
 fn main() {
-    let rt = tokio::runtime::Builder::new_multi_thread().worker_threads(2).enable_all().build().unwrap();
-    for s in ["127.0.0.1", "127.0.0.1/32", "127.0.0.9/28", "::1", "10.0.0.0/8", "127.0.0.1/33", "abc"] {
-        let r = metrics_exporter_prometheus::PrometheusBuilder::new().add_allowed_address(s);
-        println!("add_allowed_address({s:?}) -> {:?}", r.map(|_| "ok"));
-    }
-    let l = std::net::TcpListener::bind("127.0.0.1:0").unwrap();
-    let port = l.local_addr().unwrap().port();
-    drop(l);
-    let b = metrics_exporter_prometheus::PrometheusBuilder::new()
-        .with_http_listener(SocketAddr::from(([127, 0, 0, 1], port)))
-        .add_allowed_address("127.0.0.9/28")
-        .unwrap();
-    let (rec, fut) = {
-        let _g = rt.enter();
-        b.build().unwrap()
-    };
-    let jh = rt.spawn(fut);
-    use metrics::Recorder;
-    let md = metrics::Metadata::new("t", metrics::Level::INFO, None);
-    let c = rec.register_counter(&metrics::Key::from_name("c18_probe_total"), &md);
-    c.increment(3);
-    let connect = |src: [u8; 4]| -> std::io::Result<std::net::TcpStream> {
-        rt.block_on(async {
-            let s = tokio::net::TcpSocket::new_v4()?;
-            s.bind(SocketAddr::from((Ipv4Addr::from(src), 0)))?;
-            let st = s.connect(SocketAddr::from(([127, 0, 0, 1], port))).await?;
-            let st = st.into_std()?;
-            st.set_nonblocking(false)?;
-            Ok(st)
-        })
-    };
-    let dump = |mut s: std::net::TcpStream, what: &str| {
-        s.set_read_timeout(Some(Duration::from_secs(2))).unwrap();
-        let mut buf = vec![0u8; 65536];
-        let mut acc = vec![];
-        loop {
-            match s.read(&mut buf) {
-                Ok(0) => {
-                    println!("{what}: EOF after {:?}", String::from_utf8_lossy(&acc));
-                    break;
-                }
-                Ok(n) => acc.extend_from_slice(&buf[..n]),
-                Err(e) => {
-                    println!("{what}: ERR {e} after {:?}", String::from_utf8_lossy(&acc));
-                    break;
+    let args = vh::Args::parse();
+    let mode = args.pos.first().cloned().unwrap_or_default();
+    let out = args.get("out").unwrap_or("/tmp/c18_trace.ndjson").to_string();
+    // a panic inside a connection task is caught by tokio (the client sees the connection die): keep stderr quiet
+    std::panic::set_hook(Box::new(|_| {}));
+    let srt = tokio::runtime::Builder::new_multi_thread().worker_threads(2).enable_all().thread_name("c18-server").build().expect("server runtime");
+    let crt = tokio::runtime::Builder::new_multi_thread().worker_threads(1).enable_all().thread_name("c18-client").build().expect("client runtime");
+    let mut w = vh::trace::Writer::create(&out);
+    let mut st = Stats::default();
+    let t0 = Instant::now();
+    let mut run = 0u64;
+    match mode.as_str() {
+        "replay" => {
+            let all_paths = args.get("paths") == Some("all");
+            let all_emb = args.get("embed") == Some("all");
+            let text = std::fs::read_to_string(args.get("in").expect("--in")).expect("read programs");
+            for (idx, line) in text.lines().filter(|l| !l.trim().is_empty()).enumerate() {
+                let v: Value = serde_json::from_str(line).expect("program json");
+                for p in programs_from_line(&v, idx, all_paths, all_emb) {
+                    run += 1;
+                    run_program(&srt, &crt, &p, run, &mut w, &mut st);
                 }
             }
         }
-    };
-    for src in [[127, 0, 0, 0], [127, 0, 0, 1], [127, 0, 0, 15], [127, 0, 0, 16], [127, 255, 255, 254], [127, 3, 2, 1]] {
-        match connect(src) {
-            Ok(mut s) => {
-                s.write_all(b"GET /metrics HTTP/1.1\r\nHost: x\r\nConnection: close\r\n\r\n").unwrap();
-                dump(s, &format!("{src:?}"));
+        "record" => {
+            let runs: usize = args.num("runs", 30);
+            let plain: u32 = args.num("plain-rate", 30);
+            let mut rng = vh::rng(vh::seed(1).wrapping_mul(0x9e37_79b9).wrapping_add(18));
+            for idx in 0..runs {
+                let p = random_program(&mut rng, idx, plain);
+                run += 1;
+                run_program(&srt, &crt, &p, run, &mut w, &mut st);
             }
-            Err(e) => println!("{src:?}: connect error {e}"),
+        }
+        _ => {
+            eprintln!("usage: c18 replay --in programs.ndjson --out trace.ndjson [--paths all] [--embed all] | record --runs N --out trace.ndjson");
+            std::process::exit(2);
         }
     }
-    for (i, g) in [&b"\x16\x03\x01\x02\x00\x01\x00\r\n\r\n"[..], b"HELLO", b"NOT HTTP AT ALL\r\n\r\n", b"GET\r\n\r\n", b"GET / HTTP/9.9\r\n\r\n", b"\r\n\r\n\r\n", b"GET /a b c HTTP/1.1\r\n\r\n"].iter().enumerate() {
-        let mut s = connect([127, 0, 0, 2]).unwrap();
-        s.write_all(g).unwrap();
-        dump(s, &format!("garbage{i} {:?}", String::from_utf8_lossy(g)));
-    }
-    // half close after GET
-    for i in 0..5 {
-        let mut s = connect([127, 0, 0, 3]).unwrap();
-        s.write_all(b"GET /health HTTP/1.1\r\nHost: x\r\n\r\n").unwrap();
-        s.shutdown(std::net::Shutdown::Write).unwrap();
-        dump(s, &format!("halfclose{i}"));
-    }
-    for i in 0..5 {
-        let mut s = connect([127, 0, 0, 3]).unwrap();
-        s.write_all(b"GET /m HTTP/1.1\r\nHost: x\r\n\r\n").unwrap();
-        s.shutdown(std::net::Shutdown::Write).unwrap();
-        dump(s, &format!("halfclose-metrics{i}"));
-    }
-    // keepalive 2 requests pipelined
-    let mut s = connect([127, 0, 0, 3]).unwrap();
-    s.write_all(b"GET /health HTTP/1.1\r\nHost: x\r\n\r\nGET /health?x=1 HTTP/1.1\r\nHost: x\r\n\r\nGET /health/ HTTP/1.0\r\n\r\n").unwrap();
-    dump(s, "pipelined");
-    println!("exporter finished: {}", jh.is_finished());
-    jh.abort();
+    w.finish();
+    println!(
+        "{}",
+        json!({"runs": st.runs, "events": st.events, "responses": st.resp, "n200": st.n200, "n403": st.n403, "n400": st.n400,
+               "closed": st.closed, "timeouts": st.timeouts, "refused": st.refused, "build_err": st.build_err,
+               "skipped_peers": st.skipped_peers, "panics": st.panics, "distinct": st.distinct.len(),
+               "distinct_nontrivial": st.nontrivial.len(), "wall_ms": t0.elapsed().as_millis() as u64})
+    );
+    // the runtimes own detached connection tasks of connections the programs left open: do not wait for them
+    std::mem::forget(srt);
+    std::mem::forget(crt);
+    std::process::exit(0);
 }
